@@ -100,6 +100,46 @@ def truthiness_presence(m):
     return out
 
 
+def optional_attr_truthiness(m):
+    """`if self.x:` / `not self.x` / `self.x or y` where the class assigns self.x = None in one place
+    and some other value elsewhere: a legitimate 0 / empty value is then taken for 'absent'"""
+    out = []
+    for cls in [c for c in ast.walk(m.tree) if isinstance(c, ast.ClassDef)]:
+        none_attrs, other = set(), set()
+        for n in ast.walk(cls):
+            if isinstance(n, ast.Assign):
+                for t in n.targets:
+                    if isinstance(t, ast.Attribute) and dotted(t.value) == "self":
+                        if isinstance(n.value, ast.Constant) and n.value.value is None:
+                            none_attrs.add(t.attr)
+                        elif not (isinstance(n.value, ast.Constant) and isinstance(n.value.value, bool)):
+                            other.add(t.attr)
+        opt = none_attrs & other
+        if not opt:
+            continue
+        seen = set()
+        for n in ast.walk(cls):
+            cands = []
+            if isinstance(n, (ast.If, ast.IfExp, ast.While)):
+                cands.append(n.test)
+            if isinstance(n, ast.UnaryOp) and isinstance(n.op, ast.Not):
+                cands.append(n.operand)
+            if isinstance(n, ast.BoolOp):
+                cands.extend(n.values[:-1] if isinstance(n.op, ast.Or) else n.values)
+            if isinstance(n, ast.Call) and dotted(n.func) == "bool" and n.args:
+                cands.append(n.args[0])
+            for c in cands:
+                if isinstance(c, ast.UnaryOp) and isinstance(c.op, ast.Not):
+                    c = c.operand
+                if isinstance(c, ast.Attribute) and dotted(c.value) == "self" and c.attr in opt and id(c) not in seen:
+                    seen.add(id(c))
+                    fn = n
+                    while fn is not None and not isinstance(fn, (ast.FunctionDef, ast.AsyncFunctionDef)):
+                        fn = getattr(fn, "_parent", None)
+                    out.append((fn if fn is not None else cls, n, "`%s` tests self.%s by truthiness although it is None in one state and a value (possibly 0 / empty) in another: use `is None`" % (short(n, 50), c.attr)))
+    return out
+
+
 FIXTURE = '''
 def area(w, h):
     return w * h
@@ -108,6 +148,13 @@ def f(w, h, n):
         raise ValueError()
     n -= 7
     return area(h, w) + n
+class R(object):
+    def __init__(self):
+        self.cur = None
+    def load(self, b):
+        self.cur = b
+    def done(self):
+        return not self.cur
 def g(d):
     v = d.get("k")
     if not v:
@@ -126,7 +173,7 @@ def selfcheck():
     for p in ast.walk(m.tree):
         for ch in ast.iter_child_nodes(p):
             ch._parent = p
-    funcs = {f.name: f for f in m.tree.body}
+    funcs = {f.name: f for f in m.tree.body if isinstance(f, ast.FunctionDef)}
 
     class R(object):
         def resolve(self, modname, name):
@@ -139,7 +186,7 @@ def selfcheck():
                 return s
             return None
 
-    if len(swapped_arguments(R(), m)) != 1 or len(stale_lower_bound_guards(m)) != 1 or len(truthiness_presence(m)) != 2:
+    if len(swapped_arguments(R(), m)) != 1 or len(stale_lower_bound_guards(m)) != 1 or len(truthiness_presence(m)) != 2 or len(optional_attr_truthiness(m)) != 1:
         raise AnalysisError("bug-pattern rules no longer recognise their positive fixture")
 
 
@@ -150,6 +197,6 @@ def rule(repo, res, rid, modules):
         m = repo.mod(name)
         sw = swapped_arguments(repo, m)
         st = stale_lower_bound_guards(m)
-        tp = [(fn, n, why) for fn, n, why in truthiness_presence(m) if (name, fn.name) not in TRUTHINESS_SANCTIONED]
+        tp = [(fn, n, why) for fn, n, why in truthiness_presence(m) if (name, fn.name) not in TRUTHINESS_SANCTIONED] + optional_attr_truthiness(m)
         bad = ["%s in %s (line %d)" % (why, fn.name, n.lineno) for fn, n, why in sw] + ["%s in %s" % (why, fn.name) for fn, n, why in st] + ["%s in %s (line %d)" % (why, fn.name, n.lineno) for fn, n, why in tp]
         res.check(not bad, rid, "bug-patterns:%s" % name, m.rel, "; ".join(bad), by="no swapped same-named arguments, no lower-bound guard followed by a decrement, no presence-by-truthiness of a dictionary entry")
